@@ -77,6 +77,34 @@ def seam(check, proj, clsname):
         check.inventory["%s seam faces %s" % (clsname, side)] = nseam
 
 
+def seam_all_variables(check, proj):
+    """systems: the periodic closure of the face gradient is applied to EVERY variable (two-variable
+    abstract discretisation; a statement that slipped out of the loop over variables closes only
+    the last one)"""
+    D = Disc1D(proj, neq=2, periodic=True)
+    A = D.alg
+    D.fvm("calc_grad")
+    D.fvm("calc_bc_grad")
+    fg = proj.func("modeldisc.fvm1d.calc_bc_grad")
+    grads = D.so.attrs["grad"]
+    if len(grads) != 2:
+        check.violation("SEAM-EQUIV", fg.qualname, "%d gradient arrays for 2 variables" % len(grads), fg.loc(), key="grad-count")
+        return
+    for iv, g in enumerate(grads):
+        tl, th, tv = D.stn.interior(g)
+        nseam = 0
+        for l, h, v in g.segs:
+            if (h - l).a >= 1:
+                continue
+            nseam += 1
+            got = wrap(D, D.stn.absolutize(v, l))
+            want = wrap(D, D.stn.absolutize(tv, l))
+            _decide(check, "SEAM-EQUIV", "%s [variable %d of 2]" % (fg.qualname, iv), fg.loc(), A, got, want,
+                    "gradient of variable %d at seam face %r == interior template with wrapped indices" % (iv, l), key="grad-seam-var%d" % iv)
+        if nseam != 2:
+            check.violation("SEAM-EQUIV", "%s [variable %d of 2]" % (fg.qualname, iv), "%d seam faces closed for variable %d (expected 2)" % (nseam, iv), fg.loc(), key="grad-seam-count%d" % iv)
+
+
 def residual_uniform(check, proj):
     D = Disc1D(proj, periodic=True)
     D.so.attrs["flux"] = [D.stn.input("F", N + 1)]
@@ -106,6 +134,13 @@ def _body_paths(check):
     for c in classes:
         check.guarded("SEAM-EQUIV", "xnum." + c, lambda: seam(check, proj, c))
     check.guarded("SEAM-EQUIV", "modeldisc.fvm1d.calc_res", lambda: residual_uniform(check, proj))
+    check.guarded("SEAM-EQUIV", "modeldisc.fvm1d.calc_bc_grad", lambda: seam_all_variables(check, proj))
+    # "all integrators": the implicit family packs cells and equations into one vector; rows and columns
+    # of its Jacobian must use one interleaved layout, or cells exchange roles with equations
+    from . import c06
+    n0 = len(check.obs)
+    check.guarded("LAYOUT-AGREE", "integration.implicitmodel.calc_jacobian", lambda: c06.fd_column(check, proj, conservation_only=True, only_kinds=("layout",)))
+    check.obs[n0:] = [o for o in check.obs[n0:] if o.rule == "LAYOUT-AGREE" or o.status != "ok"]
     from . import c15
     if check.guarded("LAYOUT-AGREE", "modeldisc.fvm2dcart", lambda: c15.layout_agree(check)):
         check.guarded("SEAM-2D", "modeldisc.fvm2dcart.calc_bc_grad", lambda: c15.seam_2d(check))
